@@ -80,7 +80,7 @@ func runC03(c *Cfg) {
 		total := sp.tables * sp.scripts
 		stride := 1
 		if sp.nn == 3 && !c.Thorough() {
-			stride = 97 // a seeded ~1 % slice
+			stride = 13 // a seeded ~8 % slice
 			complete = false
 		}
 		off := 0
@@ -115,13 +115,17 @@ func runC03(c *Cfg) {
 		r.Exhaustive = true
 		r.Note("exhaustive: all 5^6 = 15625 connection tables over 3 nodes x 2 actions x {unconnected, nil, each node} (plus the complete 1- and 2-node spaces) x all 216 per-node action scripts of length <= 2")
 	} else {
-		r.Note("1- and 2-node table spaces complete; 3-node space sampled with stride 97 (thorough tier enumerates it completely)")
+		r.Note("1- and 2-node table spaces complete; 3-node space sampled with stride 13 (thorough tier enumerates it completely)")
 	}
 	// 2. random graphs: up to 12 nodes, 5 actions, nesting depth 3, cycles, re-connections, repeated runs
-	nr := c.Pick(5000, 200000)
+	nr := c.Pick(30000, 400000)
 	parallel(c, nr, func(i int) {
 		rg := c.Rng("c03rand", i)
 		sc := scen.GenFlowScenario(rg, scen.GenOpts{MaxNodes: 12, MaxActions: 5, MaxDepth: 3, Failures: i%2 == 0, MaxVisits: 4, Batch: true})
+		if sc.Runs > 1 && i%4 == 1 {
+			failSomewhere(rg.IntN(1<<30), sc) // a run that ends in an error, followed by further runs of the same flow object
+			r.Count("random.scenarios_with_failed_run_then_rerun", 1)
+		}
 		outs, mrs := judgeFor(c, "C03", "random", sc)
 		if len(sc.Rewire) > 0 {
 			r.Count("random.scenarios_with_connect_between_runs", 1)
@@ -161,9 +165,36 @@ func modelPath(sc *scen.Scenario) ([]pathPos, *scen.ModelRun) {
 	return ps, &mr
 }
 
+// runC04Batch: a concurrent stop-mode batch whose post turns the item failure into the node's error, with the
+// other in-flight items held parked: once Run has returned that error, no further callback of the run may start.
+func runC04Batch(c *Cfg) {
+	r := c.Rep
+	var cases []*BatchCase
+	for _, cc := range []int{2, 3, 4} {
+		for _, n := range []int{cc, cc + 2, 3*cc + 2} {
+			for f := 0; f < 2; f++ {
+				it := make([]ItemScript, n)
+				for j := range it {
+					it[j].K = 2 // every other item needs its retry: more callbacks to come
+				}
+				it[f].K = 3
+				cases = append(cases, &BatchCase{Family: "failed-post-stop-mode", N: n, C: cc, Stop: true, SetMode: true, Budget: 2, Items: it, Shape: "results", Build: "builder", ExecStyle: []string{"result", "any"}[f], Gated: true, Policy: "holdfail", PostFail: true})
+			}
+		}
+	}
+	gatedLoop(c, len(cases), func(i int) *BatchCase { return cases[i] }, func(i int, cs *BatchCase, o *BatchObs) {
+		r.Count("batch.failed_post_runs", 1)
+		if !o.ErrNil {
+			r.Count("batch.run_returned_post_error", 1)
+		}
+		r.Nontrivial(fmt.Sprintf("bp %d %d %s", cs.N, cs.C, completionOrder(o)))
+	}, "C04")
+}
+
 func runC04(c *Cfg) {
 	r := c.Rep
-	nb := c.Pick(300, 5000)
+	defer runC04Batch(c)
+	nb := c.Pick(3000, 40000)
 	parallel(c, nb, func(i int) {
 		rg := c.Rng("c04", i)
 		base := scen.GenFlowScenario(rg, scen.GenOpts{MaxNodes: 8, MaxActions: 4, MaxDepth: 4, Failures: true, MaxVisits: 3, Zoo: i%5 == 0, Batch: true})
